@@ -271,6 +271,10 @@ func injectRrFailures(r *Rand, c *rCase, i int) {
 			s2 := 5 + r.Intn(3) // other scanners, created on demand (they take a bitmap from the pool)
 			ops = append(ops, rOp{S: s2, Op: "reset"}, rOp{S: s2, Op: pick(r, []string{"retrieve", "docs"}), A: bad})
 			ops = append(ops, rOp{S: 8 + i%3, Op: "reset"}, rOp{S: 8 + i%3, Op: "retrieve", A: op.A}, rOp{S: 8 + i%3, Op: "raw"})
+			// ... and the scanner that failed is itself Reset and reused (twice: the field order of a retrieval is random)
+			ops = append(ops, rOp{S: s2, Op: "reset"}, rOp{S: s2, Op: "retrieve", A: op.A}, rOp{S: s2, Op: "raw"},
+				rOp{S: s2, Op: "reset"}, rOp{S: s2, Op: pick(r, []string{"retrieve", "docs"}), A: bad},
+				rOp{S: s2, Op: "reset"}, rOp{S: s2, Op: "docs", A: op.A}, rOp{S: s2, Op: "raw"})
 		}
 		ops = append(ops, op)
 	}
